@@ -93,6 +93,14 @@ func work(s *shared, seed int64, iters int) string {
 		}
 		c.Add(b)
 		c.Mult(b)
+		if b.IsNonzero() {
+			// division idiom: the inverse is modified in place
+			d := b.Inv()
+			d.Mult(a)
+			d.Add(c)
+			sb.WriteString(d.String())
+			sb.WriteString(b.Times(b.Inv()).String())
+		}
 		sb.WriteString(c.String())
 		sb.WriteString(c.Trace().String())
 		if e, err := f.ElementFromString(c.String()); err == nil {
